@@ -25,6 +25,7 @@ var primitiveMethods = map[string]bool{
 	"SignAndEncode": true, "VerifyAndDecode": true, "ComputeMACAndEncode": true, "VerifyMACAndDecode": true,
 	"Wrap": true, "Unwrap": true, "Compute": true, "XOREndAndCompute": true, "DeriveKey": true,
 	"Encapsulate": true, "Decapsulate": true, "Seal": true, "Open": true, "Primitive": true,
+	"ComputePrehash": true, "SignPrehash": true, "EncryptWithContext": true, "DecryptWithContext": true,
 }
 
 var mutatingStdMethods = map[string]bool{
